@@ -4,6 +4,7 @@
 # Evidence about the checker only: never changes the verdict on /repo. Writes out/<ID>.benign.json.
 set -uo pipefail
 cd "$(dirname "$0")"
+./trimcache.sh
 . ./env.sh
 ID=${1:?property id}; JOBS=${2:-8}
 REPO=${VERIF_REPO:-/repo}
